@@ -56,6 +56,12 @@ func execC04(c EngCase, _ *kit.Env) kit.Outcome {
 		w.fail("liveness", "C04:run-does-not-return", "the parallel engine stopped making progress: %s", s.Deadlock)
 	}
 
+	if w.V == nil && s.CapHit {
+		if stuck, handled := neverReturns(&c, ctl); stuck {
+			w.fail("liveness", "C04:run-does-not-return", "the parallel engine keeps running without returning (fair schedule, %d of %d events handled after 300000 steps)", handled, len(w.recs))
+		}
+	}
+
 	if w.V == nil && !s.CapHit {
 		exactlyOnce(w, "C04")
 	}
@@ -83,7 +89,7 @@ func genC05(r *kit.Rand, tier kit.Tier) EngCase {
 func execC05(c EngCase, _ *kit.Env) kit.Outcome {
 	var out kit.Outcome
 
-	w, s := runEngine(&c, func(w *world) {
+	ctl := func(w *world) {
 		for i := 0; i < c.Pauses; i++ {
 			sched.Yield("controller:before-pause")
 			w.eng.Pause()
@@ -103,11 +109,18 @@ func execC05(c EngCase, _ *kit.Env) kit.Outcome {
 			w.eng.Continue()
 			w.pausesDone++
 		}
-	})
+	}
+	w, s := runEngine(&c, ctl)
 	finishOutcome(&out, &c, w, s)
 
 	if s.Deadlock != "" && w.V == nil {
 		w.fail("liveness", "C05:run-does-not-proceed-after-continue["+engName(&c)+"]", "after %d Pause/Continue pair(s) the %s engine stopped making progress: %s", w.pausesDone, engName(&c), s.Deadlock)
+	}
+
+	if w.V == nil && w.phase == nil && s.CapHit {
+		if stuck, handled := neverReturns(&c, ctl); stuck {
+			w.fail("liveness", "C05:run-keeps-running-without-returning["+engName(&c)+"]", "the %s engine keeps running without returning (fair schedule, %d of %d events handled after 300000 steps)", engName(&c), handled, len(w.recs))
+		}
 	}
 
 	if w.V == nil && !s.CapHit {
